@@ -682,15 +682,15 @@ class RefError(Exception):
     pass
 
 
-def reading_py(d, env, exprs, keys_everywhere=True):
-    """Python-side reading of a document with the independent reference evaluator:
-    keys_everywhere=True is the property's statement, False is `as_coded` (keys of container-valued entries kept)."""
+def reading_py(d, env, exprs):
+    """Python-side statement of the property with the independent reference evaluator: every generated '{{ }}' string --
+    value, list element, key of a scalar- or container-valued entry -- is replaced; excluded entries are dropped."""
     def evs(s):
         if isinstance(s, str) and s in exprs:
             toks, _tree = exprs[s]
-            text = render(tokens(pyify(_tree)), None, "always") if python_compatible(_tree) else None
-            if text is None:
+            if not python_compatible(_tree):
                 raise RefError("not a Python expression")
+            text = render(tokens(pyify(_tree)), None, "always")
             try:
                 return ref_eval(text, env)
             except ZeroDivisionError:
@@ -711,13 +711,17 @@ def reading_py(d, env, exprs, keys_everywhere=True):
         for k, v in x.items():
             if any((not isinstance(e, (list, dict))) and k == e for e in ex):
                 continue
-            if isinstance(v, (dict, list)):
-                kk = evs(k) if keys_everywhere else k
-                out[kk] = go(v)
-            else:
-                out[evs(k)] = go(v)
+            out[evs(k)] = go(v)
         return out
     return go(d)
+
+
+# the witness of the former finding C15-container-valued-key-not-interpreted (fixed by e5276b7): runs first, every run
+REGRESSION_DOC = {"{{ 1 + 1 }}": {"a": 1}, "{{ 3 }}": ["{{ 1 }}"]}
+REGRESSION_EXPRS = {"{{ 1 + 1 }}": ([("num", "1"), ("op", "+"), ("num", "1")], ("bin", "+", ("num", "1"), ("num", "1"))),
+                    "{{ 3 }}": ([("num", "3")], ("num", "3")),
+                    "{{ 1 }}": ([("num", "1")], ("num", "1"))}
+REGRESSION_EXPECTED = {2.0: {"a": 1}, 3.0: [1.0]}
 
 
 def has_expr_key_before_container(d, exprs) -> bool:
